@@ -43,7 +43,9 @@ def catalogue(K, thorough=False):
             S.NEST_MID(K, horizon=hg),
             S.BATCH(K), S.BATCH(K, pattern=(None, 0, 3), size=3, cap=2, sink_cycle=1),
             S.RES(K), S.RES(K, r=2, q=0), S.RES_SER(K), S.MAINT(K), S.MAINT(K, n=1), S.BLOCK(K),
-            S.BUDGET(K), S.REWIRE(K)]
+            S.BUDGET(K), S.REWIRE(K),
+            S.BATCH(K, size=2, cap=3, sink_cycle=2), S.BUFBATCH(K), S.BUFBATCH(K, pattern=(3, 2), cap=4, size=2),
+            S.BATCH_DIRECT(K), S.GRPFAN(K), S.RES_SHUT(K), S.BLOCKED_OUT(K), S.FANOUT_DELAY(K), S.BATCHGATE(K)]
     return rows
 
 
@@ -133,7 +135,8 @@ class C03(Check):
 
 def buffer_scenarios(K, thorough):
     rows = [S.FAN(K), S.FANOUT(K), S.BATCH(K, cap=2, sink_cycle=1), S.BATCH(K, pattern=(3, None, 2), size=None, cap=3, sink_cycle=1),
-            S.MAINT(K), S.RES_SER(K), S.DELAY01(K)]
+            S.MAINT(K), S.RES_SER(K), S.DELAY01(K), S.BUFBATCH(K), S.BUFBATCH(K, pattern=(3, 2), cap=4, size=2),
+            S.FANOUT_DELAY(K), S.BATCH(K, size=2, cap=3, sink_cycle=2), S.BATCH_DIRECT(K, cap=3, sink_cycle=1)]
     return rows
 
 
@@ -172,7 +175,8 @@ class C06(Check):
 
     def jobs(self, tier):
         K = 2 if tier == 'quick' else 3
-        specs = [S.MAINT(K, n=1), S.CYCLES(K), S.MAINT(K - 1), S.RES_SER(K - 1), S.CYCLES2(K - 1), S.FAN(K - 1)]
+        specs = [S.MAINT(K, n=1), S.CYCLES(K), S.MAINT(K - 1), S.RES_SER(K - 1), S.CYCLES2(K - 1), S.FAN(K - 1),
+                 S.BUDGET(K - 1), S.BUDGET(K, budget=1, horizon=4)]
         jobs = _line_jobs(specs, ['cycle'], tier)
         for sp, ok in S.ser_family(n_max=1 if tier == 'quick' else 2):
             if ok:
@@ -195,7 +199,7 @@ class C08(Check):
         K = 1 if tier == 'quick' else 2
         th = tier != 'quick'
         hg = 6 if th and K <= 1 else 4
-        specs = [S.FAN(K), S.FAN3(0, horizon=8), S.GATE(K), S.REENT(K), S.REENT(K, src_cycle=1), S.GRP2(K, horizon=hg),
+        specs = [S.FAN(K), S.FAN3(2, horizon=8), S.GRPFAN(K), S.BATCHGATE(K), S.BATCH_DIRECT(K), S.GATE(K), S.REENT(K), S.REENT(K, src_cycle=1), S.GRP2(K, horizon=hg),
                  S.NEST_MID(K, horizon=hg), S.BLOCK(K), S.BATCH(K), S.REWIRE(K), S.GATEGRP(K)]
         return _line_jobs(specs, ['route'], tier)
 
@@ -233,7 +237,7 @@ class C13(Check):
     def jobs(self, tier):
         K = 2 if tier == 'quick' else 3
         specs = [S.MAINT(K, n=1, probes=3), S.MAINT(K - 1, probes=3), S.FAN(K - 1), S.BLOCKED_OUT(K)]
-        return _line_jobs(specs, ['shutdown'], tier)
+        return _line_jobs(specs, ['shutdown', 'wakeup'], tier)
 
 
 @check
@@ -266,7 +270,8 @@ class C16(Check):
 
     def jobs(self, tier):
         K = 1 if tier == 'quick' else 2
-        specs = [S.VALUE(K), S.VALUE(K + 1, horizon=4), S.VALUE_BATCH(K), S.MAINT(K), S.MAINT(K + 1, n=1)]
+        specs = [S.VALUE(K), S.VALUE(K + 1, horizon=4), S.VALUE_BATCH(K), S.MAINT(K), S.MAINT(K + 1, n=1),
+                 S.VALUE_NEST(K), S.VALUE_NEG(K), S.VALUE_NEG(K + 1, horizon=4)]
         return _line_jobs(specs, ['value'], tier)
 
 
@@ -291,4 +296,8 @@ class C17(Check):
                 for cap, kc in ((None, 0), (2, 1)):
                     specs.append(S.BATCH(K if (size in (2, None) and cap is None) or tier != 'quick' else 0,
                                          pattern=pat, size=size, cap=cap, sink_cycle=kc, horizon=5))
-        return _line_jobs(specs, ['batching', 'census'], tier)
+        for pat in [(None, 2), (0, 2, None), (None, 0, 3), (3, 1), (2, 2, None)]:
+            for size in (None, 2, 3):
+                specs.append(S.BATCH_DIRECT(K, pattern=pat, size=size, cap=4 if size else None, sink_cycle=1 if size else 0))
+        specs += [S.BUFBATCH(K), S.BUFBATCH(K, pattern=(3, 2), cap=4, size=2), S.BATCHGATE(K)]
+        return _line_jobs(specs, ['batching', 'census', 'route'], tier)
